@@ -38,42 +38,50 @@ OPTINV = ("all((base_has_option(fmt, k) and (isinstance(self._options[k], list) 
 ERRS = {"CannotParseArgsException": "True", "NoSuchOptionException": "True"}
 LISTS = ["items(self._options)", "items(tokens)", "LISTS(str)"]
 
+# an option token is accepted only if the format has an option under EXACTLY the name that was typed (C02: "a token naming
+# an unknown option is rejected as such"): normal return => the name is known; NoSuchOptionException => it is not
+UNKNOWN = lambda name: {"CannotParseArgsException": "True", "NoSuchOptionException": "not base_has_option(fmt, %s)" % name}
 R.contract(
     P + "_add_long_option",
     # (value is None or a string at every call site; the `value is False` test of the code is defensive)
     params={"name": "str", "value": "none|str", "tokens": "list[str]", "fmt": "ref ArgsFormat", "lenient": "bool"},
     requires=[OPTINV],
-    ensures=[OPTINV],
-    raises=ERRS, modifies=LISTS,
+    ensures=[OPTINV, "base_has_option(fmt, name)"],
+    raises=UNKNOWN("name"), modifies=LISTS,
 )
 R.contract(
     P + "_add_short_option",
     params={"name": "str", "value": "none|str", "tokens": "list[str]", "fmt": "ref ArgsFormat", "lenient": "bool"},
     requires=[OPTINV],
-    ensures=[OPTINV],
-    raises=ERRS, modifies=LISTS,
+    ensures=[OPTINV, "base_has_option(fmt, name)"],
+    raises=UNKNOWN("name"), modifies=LISTS,
 )
 R.contract(
     P + "_parse_short_option_set",
     params={"name": "str", "tokens": "list[str]", "fmt": "ref ArgsFormat", "lenient": "bool"},
-    requires=[OPTINV],
-    ensures=[OPTINV],
+    requires=[OPTINV, "len(name) >= 1"],
+    # every letter that was looked at is a known short name -- the first one always is
+    ensures=[OPTINV, "base_has_option(fmt, name[0])"],
     raises=ERRS, modifies=LISTS,
 )
-R.loop(P + "_parse_short_option_set", 0, invariants=[OPTINV], modifies=LISTS,
+R.loop(P + "_parse_short_option_set", 0,
+       invariants=[OPTINV, "all(base_has_option(fmt, name[j]) for j in range(_i))"], modifies=LISTS,
        fingerprint="range(0, length)")
+# the long name a token '--name' / '--name=value' spells: everything after the first two characters, up to the first '='
+LONGNAME = "(token[2:] if token[2:].find('=') == -1 else token[2:][:token[2:].find('=')])"
 R.contract(
     P + "_parse_long_option",
     params={"token": "str", "tokens": "list[str]", "fmt": "ref ArgsFormat", "lenient": "bool"},
     requires=[OPTINV],
-    ensures=[OPTINV],
-    raises=ERRS, modifies=LISTS,
+    ensures=[OPTINV, "base_has_option(fmt, %s)" % LONGNAME],
+    raises=UNKNOWN(LONGNAME), modifies=LISTS,
 )
 R.contract(
     P + "_parse_short_option",
     params={"token": "str", "tokens": "list[str]", "fmt": "ref ArgsFormat", "lenient": "bool"},
     requires=[OPTINV, "len(token) >= 2"],
-    ensures=[OPTINV],
+    # the first letter after the dash is a known short name (the following ones: value or further flags, see the set)
+    ensures=[OPTINV, "base_has_option(fmt, token[1])"],
     raises=ERRS, modifies=LISTS,
 )
 R.contract(
